@@ -7,7 +7,7 @@ patch -p1 --fuzz=3 -s < "$P"
 cd /verif
 python3 tools/run_check.py "$ID" --time "$T" --evidence /tmp/evidence_mut.json > /tmp/mut_run.log 2>&1
 rc=$?
-git -C /repo checkout -- . ; find /repo -name "*.orig" -newer "$P" -delete 2>/dev/null; git -C /repo status --short | grep -v _build
+git -C /repo checkout -- . ; find /repo/amgcl /repo/lib \( -name "*.orig" -o -name "*.rej" \) -delete 2>/dev/null; git -C /repo status --short | grep -v _build
 grep -c "^VIOLATION" /tmp/mut_run.log | sed 's/^/violations: /'
 grep "oracle=" /tmp/mut_run.log | sort | uniq -c | sort -rn | head -5
 tail -1 /tmp/mut_run.log
